@@ -113,6 +113,7 @@ type World struct {
 	Settled       bool
 	Tainted       bool
 	SkippedAhead  map[string]bool
+	relayMem      map[string][]relayMemo
 	Forked        bool
 	ForkAt        int
 	ForkHeight    int64
@@ -179,7 +180,7 @@ func holderValue(tier int) sdk.Int {
 func NewWorld(cfg Config, oracles []Oracle, logOn bool) (*World, error) {
 	hub.Setup()
 	w := &World{Cfg: cfg, Eth: map[string]*ext.Eth{}, Extra: map[string]*hub.Account{}, Stalled: map[string]bool{}, extMsAcc: map[string]uint64{},
-		Oracles: oracles, LogOn: logOn, KeysSet: map[string]bool{}, ByzVals: map[string]bool{}, SkippedAhead: map[string]bool{}, extKeyByAddr: map[[20]byte]*ecdsa.PrivateKey{},
+		Oracles: oracles, LogOn: logOn, KeysSet: map[string]bool{}, ByzVals: map[string]bool{}, SkippedAhead: map[string]bool{}, relayMem: map[string][]relayMemo{}, extKeyByAddr: map[[20]byte]*ecdsa.PrivateKey{},
 		St: NewStats(), GenesisSupply: map[string]sdk.Int{}, Liquidity0: map[string]*big.Rat{}, ColdExec: map[string]*big.Rat{}}
 	w.Now = time.Unix(1_700_000_000, 0).UTC()
 
